@@ -112,7 +112,7 @@ def closeAll : M Unit := do
   modify fun s => { s with handles := [] }
 
 def codecDefs : M Codec.Defs := do
-  let a ← curAct
+  let a ← scopeAct
   let g ← globalAct
   let find {β} (sel : Act → List (Str × β)) (n : Str) : Option (Str × β) :=
     match (sel a).find? (·.1 == n) with
@@ -228,9 +228,8 @@ mutual
     | f + 1, t, ty => do
       match ty with
       | .comp n =>
-        -- the definition is looked up from the composite context: own (none), then global
-        let g ← globalAct
-        match g.comps.find? (·.1 == n) with
+        -- the definition is looked up in the declaring scope, then globally
+        match ← compDefOf n with
         | none => throw (.crash .localCompositeType)
         | some (_, body) =>
           withAct (fun id => { id := id, name := n, isComp := true }) do
@@ -409,7 +408,7 @@ mutual
         let lv ← evalExpr f l
         let rv ← evalExpr f r
         -- the enum definition is looked up from the current activation
-        let a ← curAct
+        let a ← scopeAct
         let g ← globalAct
         let size (n : Str) : Option Nat :=
           match a.enums.find? (·.1 == n) with
